@@ -11,6 +11,23 @@ scheduler of verif.mc.sched (line-level scheduling points on the declared code o
    AES-192), aesenc (the same with encrypt), aesmix (decrypt | encrypt under the same key | ecb_encrypt); 2 blocks of data,
    round-key cache empty at the start. ~135 scheduling points per thread, so the bounds are: quick = 2 threads, <= 1
    preemption (aesdec, aesenc); thorough = 2 and 3 threads, <= 1 preemption (aesdec, aesenc, aesmix)  [KERNEL_BOUNDS].
+   (5) PAIRS OF REAL EXTRACTIONS (_T_extract2, "x2:<docA>|<docB>"): two threads extract (and serialise) two small documents
+   through the public entry point, nothing stubbed. Scheduling points are DISCOVERED, not declared: every document of the
+   alphabet is first extracted alone under a tracer that reads, after every line ANY module of the library executes (first
+   2 visits of a line, as the scheduler's loop collapsing), the process-wide settings (c15_state.probe = the settings of
+   c15_state.settings: recursion limit, switch interval, int digit limit, decimal contexts, locale, socket timeout, umask,
+   cwd, environ, sys.path, hooks, signal handlers, gc, tempdir, csv limit, logging / warnings switches, codecs handlers, ...)
+   and the module- / class-level bindings and container sizes of all library modules (c15_state.LibState). A line after
+   which that state differs is a WRITE LINE; a thread hands the baton back before each write line and right after it
+   (_PointSched). Documents with at least one write line are "active"; explored: every active document x every document
+   of the alphabet (itself included), all interleavings with <= 2 preemptions (thorough: <= 3, and 3 threads <= 2).
+   Oracle: each thread's result == the result of its document alone (same tracer, one thread); at quiescence the settings
+   and the identities of the library's module-level bindings are unchanged and both documents, extracted once more one
+   after the other, still give their results. Alphabet (x2_documents): formula documents with bare MathML (250 and 2000
+   <mrow> levels; c15_docs shape odf-mrow), odt, ods, odp, docx, pptx, xlsx, epub, html, 2000-level html, rtf, txt, a zip
+   with a damaged member; thorough: + a formula fixture, the 2000-level documents of 7 more shapes, pptx with comments,
+   pdf, eml, doc, xls, ppt, 7z fixtures. On a library without unserialised writes there is no active document and the
+   family costs the discovery only.
 H (histories): every ordered pair (and triples over a sub-alphabet) of OPERATIONS in one process; after every step the
 result digest equals the isolated baseline (fresh process) and the process-global state snapshot is unchanged.
 
@@ -423,9 +440,258 @@ class _T_aesmix(_T_aes):
                 ("aes_ecb_encrypt/256", lambda: a.aes_ecb_encrypt(v[1][0], v[2][2]))]
 
 
+# ------------------------------------------------------------------ target 5: two real extractions (discovered write points)
+
+def _lib_dir():
+    import sharepoint2text
+    return os.path.dirname(os.path.abspath(sharepoint2text.__file__)) + os.sep
+
+
+def _lib_modules():
+    return [m for n, m in sorted(sys.modules.items()) if m is not None and (n == "sharepoint2text" or n.startswith("sharepoint2text."))]
+
+
+def _code_key(co, lib):
+    return (co.co_filename[len(lib):], co.co_firstlineno, co.co_name)
+
+
+def x2_discover(doc):
+    """WRITE LINES of one extraction: the document is extracted once (warm-up: lazy imports, one-way initialisations),
+    then once more under a tracer that reads, after EVERY line the library executes (all modules of the package, not only
+    the extractor), the process-wide settings (c15_state.probe) and the module- / class-level bindings and container sizes
+    of the library's modules (c15_state.LibState). A line after which that state differs is a write line.
+    -> {"writes": [[file, first line of the function, function, line, [what changed ...]] ...], "lines": lines probed, "outcome"}"""
+    lib = _lib_dir()
+    first = _digest(doc)
+    st = c15_state.LibState(lock_types=LOCK_TYPES + (S.SchedLock,))
+    ref = c15_state.settings()
+    writes = {}
+    visits = {}
+    box = {"last": None, "probe": True, "skipped": set(), "prev": None, "pk": None, "lines": 0, "probes": 0}
+
+    def read():
+        pr = c15_state.probe()
+        return (tuple(pr.values()), st.read()), pr
+
+    def check():
+        cur, pr = read()
+        box["probes"] += 1
+        if cur != box["prev"]:
+            a, pa = box["prev"], box["pk"]
+            what = [k for k in pa if k in pr and pa[k] != pr[k]] + st.changed_spaces(a[1], cur[1])
+            for ln in box["skipped"] | ({box["last"]} if box["last"] is not None else set()):
+                writes.setdefault(ln, set()).update(what)
+            box["prev"], box["pk"] = cur, pr
+        box["skipped"] = set()
+
+    def step(frame, event):
+        # the state is read after a line only on the first X2_COLLAPSE visits of that line (later visits are no scheduling
+        # points either); a change that a later visit makes is noticed at the next reading and attributed to every line run since
+        if box["probe"]:
+            check()
+        elif box["last"] is not None:
+            box["skipped"].add(box["last"])
+        if event == "line":
+            box["lines"] += 1
+            ln = _code_key(frame.f_code, lib) + (frame.f_lineno,)
+        elif event == "return":
+            b = frame.f_back
+            ln = _code_key(b.f_code, lib) + (b.f_lineno,) if b is not None and b.f_code.co_filename.startswith(lib) else None
+        else:
+            return
+        box["last"] = ln
+        if event == "line":
+            visits[ln] = visits.get(ln, 0) + 1
+        box["probe"] = ln is None or visits.get(ln, 0) <= X2_COLLAPSE
+
+    def local(frame, event, arg):
+        if event in ("line", "return", "exception"):
+            step(frame, event)
+        return local
+
+    def glob(frame, event, arg):
+        if frame.f_code.co_filename.startswith(lib) and "/tests/" not in frame.f_code.co_filename:
+            return local
+        return None
+    box["prev"], box["pk"] = read()
+    old = sys.gettrace()
+    sys.settrace(glob)
+    try:
+        second = _digest(doc)
+    finally:
+        sys.settrace(old)
+    check()
+    if c15_state.diff(ref, c15_state.settings()):
+        c15_state.restore(ref)       # a residue of ONE extraction is the histories' finding, not ours
+    return {"writes": [list(k) + [sorted(v)] for k, v in sorted(writes.items())], "lines": box["lines"], "probes": box["probes"],
+            "outcome": second, "first": first}
+
+
+X2_COLLAPSE = 2
+
+
+class _PointSched(S.Sched):
+    """S.Sched with WRITE LINES as scheduling points: `targets` = {(file, first line, function): {line, ...}}. A thread hands
+    the baton back (a) before it executes such a line (its k-th visit of the line only for k <= collapse) and (b) at the
+    next event of the same frame (line, return, exception), i.e. when the write has happened; plus thread start / end."""
+
+    def __init__(self, n, choices, targets, collapse=X2_COLLAPSE, horizon=20000):
+        super().__init__(n, choices, list(targets), collapse=collapse, horizon=horizon)
+        self.pmap = {tuple(k): frozenset(v) for k, v in dict(targets).items()}
+        self.lib = _lib_dir()
+
+    def _tracer(self, tid):
+        seen = {}
+        pmap, lib, collapse = self.pmap, self.lib, self.collapse
+
+        def glob(frame, event, arg):
+            co = frame.f_code
+            if not co.co_filename.startswith(lib):
+                return None
+            key = (co.co_filename[len(lib):], co.co_firstlineno, co.co_name)
+            lines = pmap.get(key)
+            if lines is None:
+                return None
+            pend = [False]
+
+            def local(frame, event, arg):
+                if event not in ("line", "return", "exception"):
+                    return local
+                y = pend[0]
+                pend[0] = False
+                if event == "line" and frame.f_lineno in lines:
+                    k = (key, frame.f_lineno)
+                    seen[k] = seen.get(k, 0) + 1
+                    if seen[k] <= collapse:
+                        y = pend[0] = True
+                if y:
+                    self._yield(tid)
+                return local
+            return local
+        return glob
+
+
+_X2_POINTS = {}        # doc id -> "writes" list of x2_discover (filled from the task arguments; else discovered on demand)
+
+
+def _x2_points(doc):
+    if doc not in _X2_POINTS:
+        _X2_POINTS[doc] = x2_discover(doc)["writes"]
+    return _X2_POINTS[doc]
+
+
+class _T_extract2:
+    """"x2:<docA>|<docB>": thread 0 extracts and serialises document A, thread 1 document B (a third thread: A again) through
+    the library's public entry point, real bytes, nothing stubbed. Scheduling points: the write lines (x2_discover) of the
+    documents. Every thread must get what its document gives ALONE (same tracer, one thread); when all have finished the
+    process-wide settings (c15_state.settings) and the identity of the library's module-level bindings must be what they
+    were, and the documents extracted once more, one after the other, must still give what they give alone."""
+    sched_cls = _PointSched
+
+    def __init__(self, name):
+        self.name = name
+        docs = name[3:].split("|")
+        self.docs = docs + docs[:1]
+        for d in sorted(set(docs)):
+            _digest(d)
+        pts = {}
+        for d in sorted(set(docs)):
+            for f, l0, fn, line, _ in _x2_points(d):
+                pts.setdefault((f, l0, fn), set()).add(line)
+        self.codes = pts
+        self.ref = c15_state.settings()
+        self.lib = c15_state.LibState(lock_types=LOCK_TYPES + (S.SchedLock,))
+        self.libref = self.lib.detail()
+        self.exp = [self.alone(d) for d in self.docs]
+        if [self.alone(d) for d in self.docs] != self.exp:
+            raise RuntimeError(f"{name}: the documents do not give the same result twice when extracted alone")
+        self.setup()
+
+    def alone(self, doc):
+        s = _PointSched(1, [], self.codes)
+        out = {}
+        _swap_locks(_lib_modules(), s)
+        try:
+            s.run([lambda: out.__setitem__(0, _digest(doc))])
+        finally:
+            _swap_locks(_lib_modules(), None)
+        return out.get(0) if s.exc[0] is None else f"raised:{type(s.exc[0]).__name__}"
+
+    def setup(self):
+        cur = c15_state.settings()
+        if c15_state.diff(self.ref, cur):
+            c15_state.restore(self.ref)
+            cur = c15_state.settings()
+        self.ref = cur
+        return {"res": {}}
+
+    def bodies(self, n, ctx, sched):
+        _swap_locks(_lib_modules(), sched)
+
+        def mk(i):
+            def body():
+                ctx["res"][i] = _digest(self.docs[i])
+            return body
+        return [mk(i) for i in range(n)]
+
+    def observe(self, n, ctx, s):
+        _swap_locks(_lib_modules(), None)
+        msgs = []
+        ok = []
+        for i in range(n):
+            others = [self.docs[j] for j in range(n) if j != i]
+            if s.exc[i] is not None:
+                msgs.append(("exception", f"thread {i} ({self.docs[i]}) raised {type(s.exc[i]).__name__}: {s.exc[i]} while {others} were extracted in other threads"))
+                ok.append("exc")
+            elif s.deadlock or s.horizon_hit:
+                ok.append("dl")
+            else:
+                good = ctx["res"].get(i) == self.exp[i]
+                ok.append(good)
+                if not good:
+                    msgs.append(("result", f"thread {i}: {self.docs[i]} gives {ctx['res'].get(i)} under this interleaving with the extraction of {others} "
+                                           f"in other thread(s); extracted alone it gives {self.exp[i]}"))
+        res = False
+        if s.deadlock:
+            msgs.append(("deadlock", "no enabled thread"))
+        elif not s.horizon_hit:
+            d = c15_state.diff(self.ref, c15_state.settings())
+            if d:
+                res = True
+                msgs.append(("residue", f"process-wide settings after all threads have finished extracting {self.docs[:n]}: {d} (before, after)"))
+            det = self.lib.detail()
+            ch = {k: v for k, v in c15_state.LibState.changed(self.libref, det).items() if v[1] == "<deleted>" or v[0][0] != v[1][0]}
+            if ch:
+                res = True
+                self.libref = det
+                msgs.append(("residue", f"module-level bindings of the library rebound after all threads have finished extracting {self.docs[:n]}: {sorted(ch)[:6]}"))
+            after = [self.alone(self.docs[i]) == self.exp[i] for i in range(n)]
+            if after != [True] * n:
+                res = True
+                msgs.append(("residue", f"after all threads have finished, {self.docs[:n]} extracted once more, one after the other, give {after} (True = as alone before)"))
+        return (tuple(ok), res, s.deadlock), msgs
+
+
+def _x2_discover_task(doc):
+    return x2_discover(doc)
+
+
+def x2_documents(tier):
+    """small generated documents, one or two per format, + the formula / HTML documents of the deep-nesting family"""
+    docs = ["deep:odf-mrow:q", "deep:odf-mrow:2", "gen:odt@D", "gen:ods-nometa@B", "gen:odp-nometa@C", "gen:docx@E", "gen:pptx@F", "gen:xlsx@G",
+            "gen:epub@H", "gen:html@I", "deep:html-div:2", "gen:rtf@J", "gen:txt@none", "midfail:zip-deflate"]
+    if tier != "quick":
+        docs += ["open_office/formular.odf", "deep:odt-span:2", "deep:docx-sdt:2", "deep:pptx-group:2", "deep:rtf-group:2", "deep:epub-div:2",
+                 "deep:zip-html:2", "deep:eml-multipart:2", "gen:pptx-comments@M", "pdf/sample.pdf", "mails/basic_email.eml",
+                 "legacy_ms/headings.doc", "legacy_ms/mwe.xls", "legacy_ms/slide_with_notes.ppt", "archives/test_archive.7z"]
+    return docs
+
+
 TARGETS = {"pdfpatch": _T_pdfpatch, "pdfpatchfail": _T_pdfpatchfail, "roundkeys": _T_roundkeys, "registry": _T_registry,
            "aesdec": _T_aesdec, "aesenc": _T_aesenc, "aesmix": _T_aesmix}
 # kernel targets have ~150 scheduling points per thread: (2-thread bound, 3-thread bound) per tier; None = not run in that tier
+# pairs of real extractions: (2-thread preemption bound, 3-thread bound | None) per tier - the points are few (write lines only)
+X2_BOUNDS = {"quick": (2, None), "thorough": (3, 2)}
 KERNEL_BOUNDS = {"aesdec": {"quick": (1, None), "thorough": (1, 1)}, "aesenc": {"quick": (1, None), "thorough": (1, 1)},
                  "aesmix": {"quick": (None, None), "thorough": (1, 1)}}
 _INST = {}
@@ -434,21 +700,51 @@ _INST = {}
 def _target(name):
     c15_fresh.DIRTY.append("target " + name)
     if name not in _INST:
-        _INST[name] = TARGETS[name]()
+        _INST[name] = _T_extract2(name) if name.startswith("x2:") else TARGETS[name]()
     return _INST[name]
+
+
+def _sched_cls(t):
+    return getattr(t, "sched_cls", S.Sched)
 
 
 def run_schedule(name, n, trace):
     t = _target(name)
     ctx = t.setup()
-    s = S.Sched(n, trace, t.codes)
+    s = _sched_cls(t)(n, trace, t.codes)
     s.run(t.bodies(n, ctx, s))
     key, msgs = t.observe(n, ctx, s)
     return key, msgs, s
 
 
+def _explore(cls, n, bound, targets, setup, make_bodies, observe, root=None):
+    """S.explore with the scheduler class as a parameter (DFS over all schedules with <= bound preemptions below `root`)"""
+    import collections
+    stack = [list(root or [])]
+    execs = steps = 0
+    outcomes = collections.Counter()
+    first = {}
+    violations = []
+    while stack:
+        prefix = stack.pop()
+        ctx = setup()
+        s = cls(n, prefix, targets)
+        s.run(make_bodies(ctx, s))
+        execs += 1
+        steps += s.steps
+        key, viol = observe(ctx, s)
+        outcomes[key] += 1
+        first.setdefault(key, list(s.trace))
+        if viol:
+            violations.append((list(s.trace), viol))
+        stack.extend(S.children(s, len(prefix), bound))
+    return {"executions": execs, "steps": steps, "outcomes": outcomes, "first": first, "violations": violations, "capped": False}
+
+
 def _explore_task(arg):
-    name, n, bound, root, seed = arg
+    name, n, bound, root, seed = arg[:5]
+    if len(arg) > 5:
+        _X2_POINTS.update(arg[5])
     t = _target(name)
     viols = []
 
@@ -461,7 +757,7 @@ def _explore_task(arg):
     def obs(ctx, s):
         key, msgs = t.observe(n, ctx, s)
         return key, msgs
-    r = S.explore(n, bound, t.codes, setup, mk, obs, root=root)
+    r = _explore(_sched_cls(t), n, bound, t.codes, setup, mk, obs, root=root)
     out = []
     for trace, msgs in r["violations"]:
         for clause, msg in msgs:
@@ -473,10 +769,12 @@ def _explore_task(arg):
 
 def _roots_task(arg):
     """run the default schedule and return the alternative prefixes (the DFS roots) so that they can be farmed out"""
-    name, n, bound, seed = arg
+    name, n, bound, seed = arg[:4]
+    if len(arg) > 4:
+        _X2_POINTS.update(arg[4])
     t = _target(name)
     ctx = t.setup()
-    s = S.Sched(n, [], t.codes)
+    s = _sched_cls(t)(n, [], t.codes)
     s.run(t.bodies(n, ctx, s))
     key, msgs = t.observe(n, ctx, s)
     t.setup()
@@ -919,8 +1217,37 @@ def run(ctx):
             continue
         plans.append((name, 2, 2 if quick else 3))
         plans.append((name, 3, 1 if quick else 2))
-    roots = P.run_all("verif.props.C15", "_roots_task", [(n, k, b, ctx.seed) for n, k, b in plans], n=min(ctx.ncpu, len(plans)))
     herr = []
+    # two real extractions: write lines of every document (one discovery per document), then all pairs with an active document
+    xdocs = x2_documents(ctx.tier)
+    xres = P.run_all("verif.props.C15", "_x2_discover_task", xdocs, n=min(ctx.ncpu, len(xdocs)), hard_timeout=900)
+    xpts, x2cov = {}, {"documents": {}, "lines_traced": 0, "state_readings": 0, "pairs": []}
+    for d, (st, r, _) in zip(xdocs, xres):
+        if st != "done":
+            herr.append(f"write-line discovery of {d} failed: {st}: {str(r)[-500:]}")
+            continue
+        if r["first"] != r["outcome"]:
+            herr.append(f"write-line discovery of {d}: extracted twice alone it gives {r['first']} and {r['outcome']}")
+            continue
+        xpts[d] = r["writes"]
+        x2cov["documents"][d] = {"outcome": r["outcome"], "lines": r["lines"], "write_lines": [f"{w[0]}:{w[3]} ({w[2]}) {w[4]}" for w in r["writes"]]}
+        x2cov["lines_traced"] += r["lines"]
+        x2cov["state_readings"] += r["probes"]
+    active = [d for d in xdocs if xpts.get(d)]
+    xplans = {}
+    for a in active:
+        for b in xdocs:
+            if b in xpts and not (b in active and xdocs.index(b) < xdocs.index(a)):
+                nm = f"x2:{a}|{b}"
+                xplans[nm] = {a: xpts[a], b: xpts[b]}
+                plans.append((nm, 2, X2_BOUNDS["quick" if quick else "thorough"][0]))
+                if X2_BOUNDS["quick" if quick else "thorough"][1] is not None:
+                    plans.append((nm, 3, X2_BOUNDS["quick" if quick else "thorough"][1]))
+                x2cov["pairs"].append(nm[3:])
+    x2cov["active_documents"] = active
+    mark("write_line_discovery")
+    roots = P.run_all("verif.props.C15", "_roots_task", [(n, k, b, ctx.seed) + ((xplans[n],) if n in xplans else ()) for n, k, b in plans],
+                      n=min(ctx.ncpu, len(plans)))
     tasks = []
     fails = []
     execs = steps = 0
@@ -935,7 +1262,7 @@ def run(ctx):
         fails += [tuple(x) for x in r["fails"]]
         per[f"{name}/{k}t/b{b}"] = {"executions": 1, "roots": len(r["roots"])}
         for root in r["roots"]:
-            tasks.append((name, k, b, root, ctx.seed))
+            tasks.append((name, k, b, root, ctx.seed) + ((xplans[name],) if name in xplans else ()))
     random.Random(ctx.seed).shuffle(tasks)
     res = P.run_all("verif.props.C15", "_explore_task", tasks, n=ctx.ncpu, hard_timeout=3000)
     samples = []
@@ -1027,6 +1354,7 @@ def run(ctx):
            "evaluations": execs + hev + cev, "distinct_nontrivial": len(outcomes),
            "schedules": {"executions": execs, "scheduling_steps": steps, "per_target": per, "distinct_outcomes": len(outcomes),
                          "outcomes": dict(list(sorted(outcomes.items()))[:60])},
+           "real_extraction_pairs": x2cov,
            "histories": {"histories": hev, "extractions": htrans, "alphabet_size": len(ops), "documents": len(alpha), "restore_operations": len(rops),
                          "deep_documents": deep, "midfail_documents": midfail, "pairs": len(pairs), "triples": len(triples), "triple_alphabet": sub,
                          "watched_module_namespaces": watched, "settings_watched": sorted(c15_state.settings())},
@@ -1036,7 +1364,10 @@ def run(ctx):
                    "(1) the pypdf patch/extract/restore section, (2) the AES round-key LRU cache, (3) the lazily built type registry, at line "
                    "granularity with loop collapsing (first 2 iterations); (4) compute kernels (every function of the pure-Python AES module "
                    "traced; cbc/ecb decrypt and encrypt with different keys in 2 (thorough: also 3) threads, <= 1 preemption, each result == "
-                   "the result of the call alone, calls repeated afterwards unchanged); warm histories: all ordered pairs over the operation alphabet (extract + "
+                   "the result of the call alone, calls repeated afterwards unchanged); (5) pairs of real extractions: write lines of every document of "
+                   "x2_documents discovered by reading settings + library module state after every library line of a solo extraction, then every "
+                   "active document x every document in 2 threads with scheduling points before / after the write lines, <= 2 (thorough 3; 3 threads 2) "
+                   "preemptions, each result == the document alone, settings / library bindings / repeated extractions unchanged at quiescence; warm histories: all ordered pairs over the operation alphabet (extract + "
                    "serialise every fixture / truncated / generated / deep-nesting / mid-way failing archive document; restore the fresh-process payload of one document "
                    "per result class) and all triples over a sub-alphabet, each step compared with a fresh-process baseline, process-wide "
                    "settings compared after every step (warm-up included), full process-state snapshot and module-binding identities after "
@@ -1047,12 +1378,17 @@ def run(ctx):
            "cost": phase,
            "exhaustive": True, "bounds": {"preemptions_2_threads": 2 if quick else 3, "preemptions_3_threads": 1 if quick else 2,
                                           "kernel_targets_preemptions_(2_threads,3_threads)": {k: v["quick" if quick else "thorough"] for k, v in KERNEL_BOUNDS.items()},
+                                          "real_extraction_pairs_preemptions_(2_threads,3_threads)": X2_BOUNDS["quick" if quick else "thorough"],
+                                          "real_extraction_documents": len(xdocs), "write_line_visits_per_line": X2_COLLAPSE,
                                           "midfail_archives": len(midfail),
                                           "history_length_pairs_over": len(ops), "history_length_triples_over": len(sub),
                                           "cold_pairs_over": len(cops), "cold_triples_over": len(csub) if not quick else 0,
                                           "deep_nesting_depths": sorted({c15_docs.MULT[x.split(":")[2]] for x in deep}), "restore_classes": len(rops)}}
     return {"coverage": cov, "failures": fails, "harness_errors": herr,
             "assumptions": ["line-level scheduling points suffice: each traced line performs at most one shared-state access",
+                            "pairs of real extractions: a thread is descheduled only around the lines at which a watched setting or a module-level "
+                            "binding / container size of the library changes when the document is extracted alone (first 2 visits of a line); reads of "
+                            "that state and rebinding of third-party module attributes are no scheduling points (the latter: pdfpatch target, ModState)",
                             "functools.lru_cache helpers are implemented in C with their own lock and are not explored",
                             "memory-model effects below the GIL are not modelled",
                             "a forked child of a process that only imported the package stands for a fresh interpreter after that import",
